@@ -121,7 +121,8 @@ def _native_call(kw, inst):
     import numpy as np
     jac, mc = _native_fns()
     lam, tw, dth, mom = _native_args(kw)
-    return (jac(lam, tw, dth, np.zeros((4, 4))), mc(lam, tw, mom, dth))
+    buf = np.ascontiguousarray(kw.get("jacobian", np.zeros((4, 4))), dtype="float64").copy()       # the caller's buffer: its content must not matter
+    return (jac(lam, tw, dth, buf), mc(lam, tw, mom, dth))
 
 
 def _jac_is_derivative(a, r):
@@ -141,7 +142,8 @@ def _jac_is_derivative(a, r):
     if any(not Jmn for _, _, Jmn, _ in rows if _ is not None) and all(not Jmn for _, _, Jmn, _ in rows):
         return False                                   # a Jacobian that is identically zero: degenerate, never "equal by normal form"
     side = [alg.to_term(p) != 0 for p in alg.nonzero]
-    cl = [True if Jmn == d else eq(alg.to_term(Jmn), alg.to_term(d)) for _, _, Jmn, d in rows]
+    # entries whose normal forms differ: the *difference* polynomial (common monomials cancelled) is what the solver gets
+    cl = [True if Jmn == d else eq(alg.to_term(alg.add(Jmn, alg.neg(d))), 0) for _, _, Jmn, d in rows]
     return implies(And(*side), And(*cl))
 
 
@@ -171,7 +173,8 @@ def _jac_witness(N, case):
     from ocean_science_utilities.wavespectra.estimators.mem2 import initial_value
     m = np.array(HARD[case])
     lam = initial_value(*[np.array([v]) for v in m])[0]
-    return ("", {"lagrange_multiplier": lam, "twiddle_factors": tw, "direction_increment": np.full(N, 2 * np.pi / N), "jacobian": np.zeros((4, 4)), "moments": m})
+    return ("", {"lagrange_multiplier": lam, "twiddle_factors": tw, "direction_increment": np.full(N, 2 * np.pi / N),
+                 "jacobian": np.random.default_rng(N).normal(0, 1, (4, 4)), "moments": m})       # a used (non-zero) buffer
 
 
 # ------------------------------------------------------------------ Newton solver: the converged exit reproduces the moments to atol
@@ -291,8 +294,10 @@ def _calculus_cross_check(tier, seed):
         env = {"ints": {"N": N}, "consts": {**{got["lam"][k]: lam[k] for k in range(4)}, **{got["mom"][k]: mom[k] for k in range(4)},
                                             **{str(v): float(rng.normal()) for v in alg.dmin.values()}},
                "arrays": {"tw": {(m, j): tw[m, j] for m in range(4) for j in range(N)}, "dtheta": {(j,): dth[j] for j in range(N)}}}
+        Jbuf = rng.normal(0, 1, (4, 4))                     # content of the caller's buffer (must not matter; if the code reads it, both sides do)
+        env["arrays"]["Jbuf"] = {(m, n): Jbuf[m, n] for m in range(4) for n in range(4)}
         Freal = mc(lam, tw, mom, dth)
-        Jreal = jac(lam, tw, dth, np.zeros((4, 4)))
+        Jreal = jac(lam, tw, dth, Jbuf.copy())
         for m in range(4):
             evals += 1
             v = alg.eval_poly(got["F"][m], env)
